@@ -2,7 +2,9 @@ package main
 
 import (
 	"fmt"
+	"go/token"
 	"go/types"
+	"golang.org/x/tools/go/ssa"
 	"sort"
 	"strings"
 )
@@ -47,4 +49,76 @@ func init() {
 	for _, p := range []string{"C02", "C03", "C04", "C05", "C06", "C07", "C08"} {
 		register(p, ruleConcurrency)
 	}
+}
+
+// Q13: byte mode emits every byte of the content.
+func ruleQRByteMode(c *Ctx) {
+	const R = "Q13-QR-BYTEMODE"
+	c.Doc(R, "qr.encodeUnicode appends the bytes content[0], content[1], ..., content[len-1] - a counting loop over the byte positions (or a range over []byte(content)), not a range over the string, which would step by runes and skip continuation bytes - after the mode indicator and the byte count len(content)")
+	c.Floor(R, 3)
+	fn := c.theFunc(R, "qr.encodeUnicode")
+	if fn == nil {
+		return
+	}
+	addByte := c.P.Func("utils.(*BitList).AddByte")
+	var sites []DeepSite
+	for _, s := range c.P.deepCallsTo(fn, addByte) {
+		// (pad bytes are constants; the content bytes are element reads)
+		switch s.Ins.(*ssa.Call).Common().Args[1].(type) {
+		case *ssa.UnOp, *ssa.Index, *ssa.Lookup, *ssa.Extract:
+			sites = append(sites, s)
+		}
+	}
+	if len(sites) != 1 {
+		c.Check(R, "qr.encodeUnicode/bytes", fn.Pos(), false, "one AddByte per content byte", fmt.Sprintf("%d AddByte sites", len(sites)))
+		return
+	}
+	site := sites[0]
+	call := site.Ins.(*ssa.Call)
+	n := NewNormer(c.P)
+	n.BindParams(fn, "content", "ecl")
+	n.Ctx = site.Path
+	var base, idx ssa.Value
+	switch x := call.Common().Args[1].(type) {
+	case *ssa.UnOp:
+		if ia, ok := x.X.(*ssa.IndexAddr); ok {
+			base, idx = ia.X, ia.Index
+		}
+	case *ssa.Index:
+		base, idx = x.X, x.Index
+	case *ssa.Lookup:
+		base, idx = x.X, x.Index
+	}
+	if base == nil {
+		c.Undecided(R, "qr.encodeUnicode/byte", call.Pos(), "the appended value is not an element of the content")
+		return
+	}
+	src := n.Norm(base).String()
+	c.Check(R, "qr.encodeUnicode/source", call.Pos(), src == "content" || src == "Conv:[]byte(content)", "content (as string or as []byte(content))", src)
+	hdr := enclosingLoopHeader(call.Block())
+	if hdr == nil {
+		c.Undecided(R, "qr.encodeUnicode/loop", call.Pos(), "AddByte is not in a loop")
+		return
+	}
+	for _, ins := range hdr.Instrs {
+		if nx, ok := ins.(*ssa.Next); ok && nx.IsString {
+			c.Check(R, "qr.encodeUnicode/loop", nx.Pos(), false, "a loop over byte positions", "range over the string: positions are rune starts, continuation bytes are skipped")
+			return
+		}
+	}
+	first, step, while, ok := reindexLoop(n, hdr, idx)
+	if !ok {
+		c.Undecided(R, "qr.encodeUnicode/loop", call.Pos(), "byte position is not an affine function of a counting loop variable")
+		return
+	}
+	c.Check(R, "qr.encodeUnicode/loop", call.Pos(), pEqual(first, pConst(0)) && pEqual(step, pConst(1)), "positions 0, 1, 2, ...", fmt.Sprintf("from %s step %s", first, step))
+	w1, _ := CondEquivalent(while, MustRefCond("q < len(content)"))
+	w2, _ := CondEquivalent(while, cmpCond(token.LSS, pAtom("q"), pAtom("len(Conv:[]byte(content))")))
+	c.Check(R, "qr.encodeUnicode/while", call.Pos(), w1 || w2, "while q < len(content)", while.String())
+	n.env = n.env[:len(n.env)-1]
+}
+
+func init() {
+	register("C01", ruleQRByteMode)
+	register("C10", ruleQRByteMode)
 }
